@@ -1,1 +1,33 @@
-From PM Require Import Model.Step.
+(* C17 — concurrent edits to separate parts of a document commute after rebasing.
+   Theorem for pairs of replace steps (what every deletion, insertion, paste, split and join compiles to):
+   for every schema, valid document and steps a = replace [f1,t1) by s1, b = replace [f2,t2) by s2 with at
+   least one untouched token between them (t1 < f2) that both apply to the document:
+     - rebasing a over b's map gives a itself, rebasing b over a's map shifts it by a's size change;
+       neither is dropped (Step.map returns a step);
+     - if both orders apply, the two results have the same token sequence.
+   Hypotheses: both slices OpenOK (valid nodes off their open sides), so that the intermediate documents
+   are valid.  That both orders do apply, and the pairs involving replace-around, mark and attribute
+   steps, are evaluated per case by Corr.C17. *)
+From Coq Require Import List Arith.
+From PM Require Import Model.Data Model.Mark Model.Tree Model.StepMap Model.Step Spec.Tokens
+  Proofs.ReplaceValid Proofs.SliceSides Proofs.TokenBasics Proofs.ReplaceTokens Proofs.SliceShape Proofs.TokenLaws
+  Proofs.StepAlgebra.
+Import ListNotations.
+
+Theorem C17_separated_replace_steps_commute : forall s f1 t1 s1 st1 f2 t2 s2 st2 doc da db,
+  check s doc = true ->
+  OpenOK s (sl_content s1) (sl_open_start s1) (sl_open_end s1) ->
+  OpenOK s (sl_content s2) (sl_open_start s2) (sl_open_end s2) ->
+  f1 <= t1 -> t1 < f2 -> f2 <= t2 ->
+  apply s (SReplace f1 t1 s1 st1) doc = ROk da ->
+  apply s (SReplace f2 t2 s2 st2) doc = ROk db ->
+  let d1 := length (IT s s1) in
+  step_map (SReplace f1 t1 s1 st1) (get_map s (SReplace f2 t2 s2 st2)) = Some (SReplace f1 t1 s1 false) /\
+  step_map (SReplace f2 t2 s2 st2) (get_map s (SReplace f1 t1 s1 st1)) =
+    Some (SReplace (f2 + d1 - (t1 - f1)) (t2 + d1 - (t1 - f1)) s2 false) /\
+  forall dab dba,
+    apply s (SReplace (f2 + d1 - (t1 - f1)) (t2 + d1 - (t1 - f1)) s2 false) da = ROk dab ->
+    apply s (SReplace f1 t1 s1 false) db = ROk dba ->
+    DT s dab = DT s dba.
+Proof. exact replace_steps_commute. Qed.
+Print Assumptions C17_separated_replace_steps_commute.
